@@ -534,7 +534,7 @@ class Grammar(Model):
 
         missing: set[str] = self.missing_rules(set(self.rulemap))
         if missing:
-            msg = ' '.join(missing)
+            msg = ' '.join(sorted(missing))
             raise GrammarError('unknown rules, no parser generated: ' + msg)
 
     def configure(self, config: ParserConfig | None = None, **settings: Any):
